@@ -131,10 +131,6 @@ impl Hooks for H {
         let res = match &rec.outcome {
             Outcome::Fd(_) => {
                 let f = rec.facts.as_ref();
-                // on an O_PATH descriptor O_DIRECTORY is a lookup-control bit the
-                // kernel merely echoes (it says how the descriptor was looked
-                // up, e.g. a dup of the caller's root), not an I/O status flag
-                let mask = if f.map(|f| f.getfl & libc::O_PATH != 0).unwrap_or(false) { mask & !libc::O_DIRECTORY } else { mask };
                 format!(
                     "ok fd path={} type={:o} fl={:#o} cloexec={}",
                     f.map(|f| strip_ids(&f.path)).unwrap_or_default(),
@@ -248,7 +244,55 @@ pub fn compare(seed: u64, rk: coord::CheckResult, re: coord::CheckResult, fixed_
             continue;
         }
         diffs += 1;
-        let i = kl.iter().zip(el.iter()).position(|(a, b)| a != b).unwrap_or(kl.len().min(el.len()));
+        // One divergence is recorded as a known finding and must not hide others:
+        // a *lookup* that ends at the root itself returns, on the emulated
+        // backend, a dup of the caller's root descriptor (with whatever flags
+        // the caller opened it with, O_DIRECTORY here) and a fresh O_PATH
+        // descriptor on the openat2 backend.
+        let root_flags_only = |a: &str, b: &str| -> bool {
+            let parse = |l: &str| -> Option<(String, i32)> {
+                let (pre, rest) = l.split_once(" fl=0o").or_else(|| l.split_once(" fl=0"))?;
+                let (fl, post) = rest.split_once(' ').unwrap_or((rest, ""));
+                let fl = i32::from_str_radix(fl, 8).ok()?;
+                Some((format!("{pre}|{post}"), fl))
+            };
+            match (parse(a), parse(b)) {
+                (Some((ra, fa)), Some((rb, fb))) => ra == rb && fa != fb && (fa ^ fb) == libc::O_DIRECTORY && a.contains("fd path=/mnt/w/root type=40000") && (a.starts_with("resolve") || a.starts_with("mkdir_all")),
+                _ => false,
+            }
+        };
+        let mut first_other = None;
+        let mut first_rootflags = None;
+        for (j, (a, b)) in kl.iter().zip(el.iter()).enumerate() {
+            if a != b {
+                if root_flags_only(a, b) {
+                    first_rootflags.get_or_insert(j);
+                } else {
+                    first_other = Some(j);
+                    break;
+                }
+            }
+        }
+        if first_other.is_none() && kl.len() != el.len() {
+            first_other = Some(kl.len().min(el.len()));
+        }
+        if let (Some(j), None) = (first_rootflags, first_other) {
+            let mut case = match fixed_case {
+                Some(c) => c.clone(),
+                None => gen_case(seed, *idx, &UniCfg::k()),
+            };
+            if fixed_case.is_none() && j < case.jobs[0].len() {
+                case.jobs[0].truncate(j + 1);
+            }
+            let opname = case.jobs[0].get(j).map(|o| o.name()).unwrap_or("op").to_string();
+            let mut v = case.to_json();
+            v["universe"] = json!({"twin": ["K", "E"], "openat2": "both"});
+            v["expect"] = json!({"violation": true, "signature": format!("C04/flags-differ:lookup-ending-at-the-root/{opname}"),
+                                 "detail": format!("op #{j}: openat2 universe: {}  ||  universe without openat2: {}", kl[j], el[j])});
+            res.stats.violations.push(v);
+            continue;
+        }
+        let i = first_other.unwrap_or(0);
         let mut case = match fixed_case {
             Some(c) => c.clone(),
             None => gen_case(seed, *idx, &UniCfg::k()),
